@@ -34,6 +34,16 @@ def cases(tier, seed):
         for k, (c1, c2) in enumerate(cgrid.pairs(w, 0)):
             if tier == "thorough" or k < 25 or k % NSLICES == sl:
                 yield {"w": w, "c1": c1, "c2": c2}
+    if tier == "thorough":
+        for c in _level1(seed):
+            yield c
+
+
+def _level1(seed):
+    for w in ("casc", "share", "mix"):
+        for k, (c1, c2) in enumerate(cgrid.pairs(w, 1)):
+            if k % 800 == seed % 800:
+                yield {"w": w, "c1": c1, "c2": c2, "fam": "level1"}
 
 
 def describe(tier, seed):
